@@ -326,7 +326,15 @@ def plant(rng, kind, cmd='cmd'):
         return stmts + extra, 'UnboundedMatchable', '<%s>' % u
     if kind == 'conflicting_descriptions':
         l = f.lit('same')
-        w = '(%s "first descr" %s | %s "second descr" %s)' % (l, f.lit(), l, f.lit())
+        # the clash sits among 0-3 sibling literals of the same state that sort before / after it (the check walks a sorted
+        # list of the state's (literal, description) pairs), and one of the two descriptions may be absent
+        d1, d2 = rng.choice([('"first descr"', '"second descr"'), ('"first descr"', ''), ('', '"second descr"')])
+        sib = []
+        for _ in range(rng.choice([0, 1, 1, 2, 3])):
+            sib.append(rng.choice(['--aa%d', 'zz%d', 'Aa%d', 'sa%d']) % rng.randrange(100))
+        alts = ['%s %s %s' % (l, d1, f.lit()), '%s %s %s' % (l, d2, f.lit())] + sib
+        rng.shuffle(alts)
+        w = '(%s)' % ' | '.join(a.replace('  ', ' ') for a in alts)
         use, extra = through_defs(w)
         stmts[0] = stmts[0][:-1] + ' ' + use + ';'
         return stmts + extra, 'ConflictingDescriptions', None
